@@ -14,7 +14,7 @@ type C02 struct{}
 
 func (*C02) ID() string     { return "C02" }
 func (*C02) Level() string  { return "exploration" }
-func (*C02) Engine() string { return "HIST" }
+func (*C02) Engine() string { return "HIST+CONC" }
 func (*C02) Rule() string {
 	return "seeded calls of every non-terminating severity through every entry point with generated argument lists (string keys with values of every Go kind incl. nil, all numeric widths, NaN/Inf, arbitrary byte strings, []byte, time, duration, error, Stringer, struct, map, func, chan, pointers; dangling key; non-string in key position; Attr, Attrs, []Attr with nil elements; groups nested to depth 6, empty groups, empty keys; Println with a non-string first argument; blank messages), 3 formats x random flags x random logger level x 1-3 destinations per class; the pool tape recycles buffers between calls; the I/O history per destination during each call is the observable; distinct = (argument-shape signature, format, entry, admitted); non-trivial = at least one non-scalar or malformed argument"
 }
@@ -257,6 +257,7 @@ func (p *C02) Gen(seed uint64, i int, tier string) *scen.Scenario {
 		loggers = append(loggers, 2)
 	}
 	sc.Setup = append(sc.Setup, scen.Op{Op: "set_debug_mode", B: []bool{false}}, scen.Op{Op: "get_debug_mode"}, scen.Op{Op: "snap"})
+	var calls []scen.Op
 	n := r.Range(4, 20)
 	for k := 0; k < n; k++ {
 		sev := scen.Pick(r, c02Sevs)
@@ -326,7 +327,27 @@ func (p *C02) Gen(seed uint64, i int, tier string) *scen.Scenario {
 				op.Ctx = &scen.CtxSpec{Nil: true}
 			}
 		}
-		sc.Setup = append(sc.Setup, op)
+		calls = append(calls, op)
+	}
+	if r.Chance(1, 4) && len(calls) >= 2 {
+		// the same calls from 2-3 concurrent caller tasks (CONC engine): the per-call I/O history must not change
+		G := r.Range(2, 3)
+		sc.Engine = "CONC"
+		sc.Sched = scen.SchedCfg{StayPermille: r.Range(300, 950)}
+		for t := 1; t <= G; t++ {
+			sc.Tasks = append(sc.Tasks, scen.Task{ID: t})
+		}
+		for k, c := range calls {
+			// yielding variants of error/stringer values give preemption points inside the record
+			for q := range c.Args {
+				if c.Args[q].K == "err" || c.Args[q].K == "stringer" {
+					c.Args[q].Y = true
+				}
+			}
+			sc.Tasks[k%G].Ops = append(sc.Tasks[k%G].Ops, c)
+		}
+	} else {
+		sc.Setup = append(sc.Setup, calls...)
 	}
 	return sc
 }
@@ -355,11 +376,11 @@ func (p *C02) Check(sc *scen.Scenario, run *orch.Run, env *orch.Env) []orch.Viol
 	reg := model.NewRegistry()
 	debug := false
 	var snap map[int]snapLogger
-	for i := range sc.Setup {
-		op := &sc.Setup[i]
-		o := ops[opKey("setup", 0, i+1)]
+	setupLen := len(sc.Setup)
+	checkCall := func(ph string, task, i int, op *scen.Op) {
+		o := ops[opKey(ph, task, i+1)]
 		if o == nil || o.Skipped {
-			continue
+			return
 		}
 		switch op.Op {
 		case "get_debug_mode":
@@ -369,16 +390,16 @@ func (p *C02) Check(sc *scen.Scenario, run *orch.Run, env *orch.Env) []orch.Viol
 			if retInto(o, &ret) {
 				debug = ret.Debug
 			}
-			continue
+			return
 		case "snap":
 			snap = snapOf(o.Snap)
-			continue
+			return
 		case "log":
 		default:
 			if o.Panic != nil {
-				add("C02.panic", "op="+op.Op, "setup[%d] %s panicked: %s", i, op.Op, o.Panic.S)
+				add("C02.panic", "op="+op.Op, "%s[%d] %s panicked: %s", ph, i, op.Op, o.Panic.S)
 			}
-			continue
+			return
 		}
 		first := ""
 		if op.Kind == "rawargs" && len(op.Args) > 0 {
@@ -389,18 +410,18 @@ func (p *C02) Check(sc *scen.Scenario, run *orch.Run, env *orch.Env) []orch.Viol
 		}
 		if o.Panic != nil {
 			add("C02.panic", "entry="+op.Entry+first, "%s(%q, %s) panicked: %s", op.Entry, op.Msg, argShape(op.Args, 0), o.Panic.S)
-			continue
+			return
 		}
 		if !o.Ended {
-			continue // the world died here; reported below
+			return // the world died here; reported below
 		}
 		ls, ok := snap[op.L]
 		if !ok {
-			continue
+			return
 		}
-		ws := model.WritersFromHistory(sc.Setup, i)[op.L]
+		ws := model.WritersFromHistory(sc.Setup, setupLen)[op.L]
 		if ws == nil {
-			continue
+			return
 		}
 		byW := map[int][]scen.Event{}
 		for _, w := range o.Writes {
@@ -408,19 +429,23 @@ func (p *C02) Check(sc *scen.Scenario, run *orch.Run, env *orch.Env) []orch.Viol
 		}
 		want := reg.Admitted(ls.Level, op.Lvl, debug)
 		sel, sure := ws.Select(reg, op.Lvl)
+		mode := ""
+		if ph == "task" {
+			mode = " conc"
+		}
 		switch {
 		case want == model.Deny:
 			if len(o.Writes) > 0 {
-				add("C02.unadmitted-write", "entry="+op.Entry, "%s at %s on a logger at %s is not admitted but %d Write(s) happened", op.Entry, model.LevelName(op.Lvl), model.LevelName(ls.Level), len(o.Writes))
+				add("C02.unadmitted-write", "entry="+op.Entry+mode, "%s at %s on a logger at %s is not admitted but %d Write(s) happened", op.Entry, model.LevelName(op.Lvl), model.LevelName(ls.Level), len(o.Writes))
 			}
-			continue
+			return
 		case want == model.Unknown:
 			if len(o.Writes) == 0 {
-				continue
+				return
 			}
 		}
 		if !sure {
-			continue
+			return
 		}
 		exp := map[int]int{}
 		for _, w := range sel {
@@ -433,26 +458,33 @@ func (p *C02) Check(sc *scen.Scenario, run *orch.Run, env *orch.Env) []orch.Viol
 		for w := range byW {
 			ids[w] = true
 		}
-		blank := isBlank(op.Msg) && op.Kind != "rawargs" && op.Lvl == model.Always && (strings.Contains(op.Entry, "Print"))
+		blank := isBlank(op.Msg) && len(op.X) == 0 && op.Kind != "rawargs" && op.Lvl == model.Always && (strings.Contains(op.Entry, "Print"))
 		for _, w := range sortedKeysInt(ids) {
 			evs := byW[w]
 			if len(evs) != exp[w] {
-				rule := "C02.count"
-				add(rule, fmt.Sprintf("entry=%s got=%d want=%d", op.Entry, min(len(evs), 3), exp[w]), "%s(%q, %s) at %s: destination %d saw %d Write calls during the call, expected %d (selected %v)", op.Entry, op.Msg, argShape(op.Args, 0), model.LevelName(op.Lvl), w, len(evs), exp[w], sel)
+				add("C02.count", fmt.Sprintf("entry=%s got=%d want=%d%s", op.Entry, min(len(evs), 3), exp[w], mode), "%s(%q, %s) at %s: destination %d saw %d Write calls during the call, expected %d (selected %v)", op.Entry, op.Msg, argShape(op.Args, 0), model.LevelName(op.Lvl), w, len(evs), exp[w], sel)
 				continue
 			}
 			for _, e := range evs {
 				if len(e.P) == 0 || e.P[len(e.P)-1] != '\n' {
-					add("C02.newline", "entry="+op.Entry, "%s(%q, %s): payload does not end with a newline: %.200q", op.Entry, op.Msg, argShape(op.Args, 0), e.P)
+					add("C02.newline", "entry="+op.Entry+mode, "%s(%q, %s): payload does not end with a newline: %.200q", op.Entry, op.Msg, argShape(op.Args, 0), e.P)
 				}
 				if blank {
 					if string(e.P) != "\n" {
-						add("C02.blank", "entry="+op.Entry, "blank %s(%q) must be delivered as exactly one newline byte, got %.120q", op.Entry, op.Msg, e.P)
+						add("C02.blank", "entry="+op.Entry+mode, "blank %s(%q) must be delivered as exactly one newline byte, got %.120q", op.Entry, op.Msg, e.P)
 					}
 				} else if op.Tok != "" && len(op.X) == 0 && strings.Contains(op.Msg, op.Tok) && !containsTok(e.P, op.Tok) {
-					add("C02.whole", "entry="+op.Entry, "%s(%q): the payload does not contain the call's token: %.200q", op.Entry, op.Msg, e.P)
+					add("C02.whole", "entry="+op.Entry+mode, "%s(%q): the payload does not contain the call's token: %.200q", op.Entry, op.Msg, e.P)
 				}
 			}
+		}
+	}
+	for i := range sc.Setup {
+		checkCall("setup", 0, i, &sc.Setup[i])
+	}
+	for _, t := range sc.Tasks {
+		for i := range t.Ops {
+			checkCall("task", t.ID, i, &t.Ops[i])
 		}
 	}
 	if worldDied(run) {
@@ -471,16 +503,24 @@ func min(a, b int) int {
 func (p *C02) Classify(sc *scen.Scenario, run *orch.Run) (string, bool) {
 	var sb strings.Builder
 	nt := false
-	for i := range sc.Setup {
-		op := &sc.Setup[i]
+	one := func(op *scen.Op) {
 		if op.Op != "log" {
 			fmt.Fprintf(&sb, "%s:%d;", op.Op, len(op.Opts))
-			continue
+			return
 		}
 		shape := argShape(op.Args, 0)
 		fmt.Fprintf(&sb, "%s:%d:%s:%s;", op.Entry, op.Lvl, op.Kind, shape)
 		if strings.ContainsAny(shape, "(") || strings.Contains(shape, "attrs") || strings.Contains(shape, "nil") || op.Kind == "rawargs" {
 			nt = true
+		}
+	}
+	for i := range sc.Setup {
+		one(&sc.Setup[i])
+	}
+	for _, t := range sc.Tasks {
+		sb.WriteString("|task;")
+		for i := range t.Ops {
+			one(&t.Ops[i])
 		}
 	}
 	return fmt.Sprintf("%x", scen.HashString(sb.String())), nt
